@@ -49,6 +49,26 @@ def statp_decodes_in_wire_order(ctx, repo, cname, fname):
     ctx.ob("R3", f"{fi.qual}::records-in-wire-order", ok,
            f"{fi.qual}: a STATP carrying records [(pos0, w0), (pos1, w1)] is not decoded into that list in that order: {why}", fi.loc,
            sample={"rule": "R3", "handler": fi.qual, "decoded": str(got)[:200]})
+    # concrete messages as the repository's own builder makes them, including the short final record that reports a
+    # one-byte write (position + one data byte): nothing the message carries may be dropped
+    for label, changes in (("single-byte-change", [(700, b"\x5a")]), ("word-then-byte-change", [(10, b"\x01\x02"), (700, b"\x5a")]),
+                           ("same-position-twice", [(300, b"\x00\x07"), (300, b"\x00\x09")]), ("no-change", [])):
+        interp = Interp(repo, max_depth=10)
+        try:
+            msg = interp.call(repo.method(SYNC_H, "report_changes"), None, [sock, list(changes)])
+            wire = c04.wire_of(msg)
+            rx = c04.new_handler(repo, interp, cname, [sock]) if cname == ASYNC_H else c04.fresh_handler(repo, interp, repo.cls(cname), sock)
+            interp.steps = 0
+            interp.call(fi, rx, [wire, ("10.0.0.1", 10022)])
+            got = c04.read_field(interp, rx, "changes")
+            got = [tuple(x) for x in got] if isinstance(got, list) else got
+            good = got == [(p_, bytes(d_)) for p_, d_ in changes]
+        except PyRaise as e:
+            got, good = f"raises {e.what}", False
+        except Undecided as e:
+            raise AnalysisError(f"{fi.qual}: STATP decode of {label} cannot be interpreted: {e}")
+        ctx.ob("R3", f"{fi.qual}::decodes::{label}", good,
+               f"{fi.qual}: the STATP message the library builds for the changes {changes} is decoded as {got}: a reported change is lost or altered before it is applied", fi.loc)
 
 
 def decode_path(ctx, repo, cname, fname, reset_required):
